@@ -5,9 +5,6 @@ verus! {
 
 pub struct PairG { pub rule: Rule, pub start: int, pub end: int, pub children: Seq<PairG> }
 
-// i is a UTF-8 character boundary of b (std: 0, len, or a byte that is not a continuation byte)
-pub uninterp spec fn is_boundary(b: Seq<u8>, i: int) -> bool;
-pub proof fn axiom_boundary_ends(b: Seq<u8>) ensures is_boundary(b, 0), is_boundary(b, b.len() as int) { admit(); }
 
 // one level of the tree: children lie inside the parent, in order, without overlap, on character boundaries
 pub open spec fn kids_span_ok(g: PairG, input: Seq<u8>) -> bool {
